@@ -1,11 +1,12 @@
 #!/bin/bash
 # tools/seeded_all.sh : re-run every filed seeded change against its target check + companions
+# FASTARG=--fast : target check + the extra checks of tools/seed_extra.txt only
 cd /verif
 for d in seeded/*/; do
   n=$(basename $d)
   case $n in
-    W*-C*-[0-9]) label=${n%%-*}; rest=${n#*-}; pid=${rest%-*}; k=${rest#*-}; python3 tools/seeded.py $pid $k --label $label --multi 2>&1 | grep "^SEEDED\|HARNESS" ;;
-    W*) pid=${n#*-}; label=${n%%-*}; python3 tools/seeded.py $pid 1 --label $label 2>&1 | grep "^SEEDED\|HARNESS" ;;
-    *)  pid=${n%-*}; k=${n#*-}; python3 tools/seeded.py $pid $k 2>&1 | grep "^SEEDED\|HARNESS" ;;
+    W*-C*-[0-9]) label=${n%%-*}; rest=${n#*-}; pid=${rest%-*}; k=${rest#*-}; python3 tools/seeded.py $pid $k --label $label --multi $FASTARG 2>&1 | grep -a "^SEEDED\|HARNESS" ;;
+    W*) pid=${n#*-}; label=${n%%-*}; python3 tools/seeded.py $pid 1 --label $label $FASTARG 2>&1 | grep -a "^SEEDED\|HARNESS" ;;
+    *)  pid=${n%-*}; k=${n#*-}; python3 tools/seeded.py $pid $k $FASTARG 2>&1 | grep -a "^SEEDED\|HARNESS" ;;
   esac
 done
